@@ -35,18 +35,21 @@ type rendering struct {
 	tight   bool // no blanks around punctuation and operators
 	optOn   bool // optional keywords present
 	delimID bool // identifiers in double quotes
+	semi    string // statement terminator appended as the console does ("" = none)
 }
 
 var c10Renderings = []rendering{
-	{"canonical", 0, " ", false, true, false},
-	{"lower-case keywords", 1, " ", false, true, false},
-	{"mixed-case keywords", 2, " ", false, true, false},
-	{"line break between tokens", 0, "\n", false, true, false},
-	{"tabs and blanks", 1, " \t  ", false, true, false},
-	{"tight punctuation", 0, " ", true, true, false},
-	{"optional keywords omitted", 0, " ", false, false, false},
-	{"delimited identifiers", 1, " ", false, true, true},
-	{"tight + omitted + CRLF", 2, "\r\n", true, false, false},
+	{"canonical", 0, " ", false, true, false, ""},
+	{"lower-case keywords", 1, " ", false, true, false, ""},
+	{"mixed-case keywords", 2, " ", false, true, false, ""},
+	{"line break between tokens", 0, "\n", false, true, false, ""},
+	{"tabs and blanks", 1, " \t  ", false, true, false, ""},
+	{"tight punctuation", 0, " ", true, true, false, ""},
+	{"optional keywords omitted", 0, " ", false, false, false, ""},
+	{"delimited identifiers", 1, " ", false, true, true, ""},
+	{"tight + omitted + CRLF", 2, "\r\n", true, false, false, ""},
+	{"trailing semicolon", 0, " ", false, true, false, ";"},
+	{"trailing blank + semicolon", 1, " ", false, true, false, " ;"},
 }
 
 func renderTokens(toks []rtok, r rendering) string {
@@ -90,7 +93,7 @@ func renderTokens(toks []rtok, r rendering) string {
 		sb.WriteString(text)
 		prevTight = tightTok
 	}
-	return sb.String()
+	return sb.String() + r.semi
 }
 
 // ---- tree builder with parallel token rendering ----
